@@ -204,6 +204,44 @@ def graph_cases():
     return out
 
 
+
+def incl_case(i, row):
+    """a row of spec/Incl.tla: the top file includes one file per element of row["seq"]"""
+    files = {}
+    incs = []
+    leafn = [0]
+
+    def leaf(kind, prefix):
+        leafn[0] += 1
+        n = "%s%d.mro" % (prefix, leafn[0])
+        if kind == "good":
+            files[n] = "filetype g%d;\n" % leafn[0]
+        elif kind == "syntax":
+            files[n] = "filetype s%d;\nstage (\n" % leafn[0]
+        elif kind == "dupdecl":
+            files[n] = "struct D%d(\n    int a,\n)\n\nstruct D%d(\n    string a,\n)\n" % (leafn[0], leafn[0])
+        elif kind == "cycle":
+            files[n] = '@include "a.mro"\n\nfiletype c%d;\n' % leafn[0]
+        elif kind == "missing":
+            pass
+        return n
+    nest = {"nest_good": ["good", "good"], "nest_bad_good_bad": ["syntax", "good", "missing"],
+            "nest_good_bad": ["good", "syntax"], "nest_missing_good_syntax": ["missing", "good", "syntax"]}
+    for k in row["seq"]:
+        if k in nest:
+            leafn[0] += 1
+            n = "n%d.mro" % leafn[0]
+            inner = [leaf(q, "sub/l") for q in nest[k]]
+            files[n] = "".join('@include "%s"\n' % q for q in inner) + "\nfiletype n%d;\n" % leafn[0]
+            incs.append(n)
+        else:
+            incs.append(leaf(k, "l"))
+    files["a.mro"] = "".join('@include "%s"\n' % q for q in incs) + "\nfiletype top;\n"
+    c = case("incl:%d:%s" % (i, ",".join(row["seq"])), "graph", json.dumps({"files": files, "top": "a.mro"}).encode())
+    c["expect"] = row["outcome"]
+    return c
+
+
 def write(cases, path):
     with open(path, "w") as f:
         for c in cases:
